@@ -27,7 +27,7 @@ func FieldKey(fa *ssa.FieldAddr) string {
 	if !ok {
 		return "?"
 	}
-	return TypeKey(pt.Elem()) + "." + st.Field(fa.Field).Name()
+	return aliasKey(TypeKey(pt.Elem()) + "." + st.Field(fa.Field).Name())
 }
 
 // FieldKeyVal is FieldKey for a value-mode field selection.
@@ -36,7 +36,7 @@ func FieldKeyVal(f *ssa.Field) string {
 	if !ok {
 		return "?"
 	}
-	return TypeKey(f.X.Type()) + "." + st.Field(f.Field).Name()
+	return aliasKey(TypeKey(f.X.Type()) + "." + st.Field(f.Field).Name())
 }
 
 func (w *World) fvIdx() *fvIndex {
